@@ -96,3 +96,16 @@ Definition remove_nth {A} (f : nat) (l : list A) : list A := firstn f l ++ skipn
 Definition andline_alg (line : nat -> nat) (vs : list (list nat)) (f : nat) : bool :=
   let base := dedup_adj (map line (nth f vs [])) in
   al_lines (S (length base)) base (map (map line) (remove_nth f vs)).
+
+(* ------------------------------------------------------------------ nextFileIndex (matchiter.go:131), with its galloping *)
+Fixpoint gallop (fuel : nat) (off f d : nat) (ends : list nat) : nat :=
+  match fuel with
+  | 0 => f
+  | S fu =>
+      if (f <? length ends) && (nth f ends 0 <=? off) then
+        if (f + d <? length ends) && (nth (f + d) ends 0 <=? off) then gallop fu off (f + d) (d * 2) ends
+        else if 1 <? d then gallop fu off f (d / 4 + 1) ends
+        else gallop fu off (S f) d ends
+      else f
+  end.
+Definition next_file_index (off f : nat) (ends : list nat) : nat := gallop (2 * length ends + 3) off f 1 ends.
